@@ -72,6 +72,12 @@ func c16(c *q.Ctx) {
 		c.ArgIs(sg, "VerifyECDSA", 2, "i:BlockInterface.GetBlockid(p2)", 1, "signature over the block id")
 	}
 	// ---- PoW
+	if rf := c.Fn("bcs/consensus/pow::(*PoWConsensus).refreshDifficulty"); rf != nil {
+		exp := "((p0.config.AdjustHeightGap - 1) * p0.config.ExpectedPeriodMilSec)"
+		c.CondCount(rf, "(* / 1000000000) < ("+exp+" / 4))", 1, "the measured span is clamped from below at a quarter of the expected span (compared before any division of the measured side)")
+		c.CondCount(rf, "(("+exp+" * 4) < phi{*})", 1, "and from above at four times the expected span: the comparison multiplies the expected side, it never divides the measured one (a truncated quotient lets spans just above the limit through)")
+		c.CondCount(rf, "((p2 % p0.config.AdjustHeightGap) == 0)", 1, "the target is re-derived exactly at multiples of the adjustment gap")
+	}
 	pw := c.Fn("bcs/consensus/pow::(*PoWConsensus).CheckMinerMatch")
 	if pw != nil {
 		st := "pow.(*PoWConsensus).ParseConsensusStorage(p0,p2)#0.TargetBits"
